@@ -15,13 +15,13 @@ pub fn c11_crash() {
     process_request("snapshot false", &n.dbs, &mut c); snapshot_all_pendding_dbs(&n.dbs);
     let old0 = peek(&n.dbs, "d", "k0").unwrap(); let old1 = peek(&n.dbs, "d", "key1").unwrap();
     // the memory state changes
-    let kind = vsym::choice("change", 5);
+    let kind = vsym::choice("change", 6);
     vsym::tag_i("change", kind as i64);
     let a1 = vsym::any_ascii("a1", 3);
     let long = "x".repeat(300);             // longer than the 250-byte writer buffers
     if kind == 0 || kind == 3 { process_request(&["set k0 ", &a1].concat(), &n.dbs, &mut c); }
-    if kind == 1 || kind == 3 { process_request("set k2 nw", &n.dbs, &mut c); }
-    if kind == 2 { process_request("remove key1", &n.dbs, &mut c); }
+    if kind == 1 || kind == 3 || kind == 5 { process_request("set k2 nw", &n.dbs, &mut c); }
+    if kind == 2 || kind == 5 { process_request("remove key1", &n.dbs, &mut c); }
     if kind == 4 { process_request(&["set k0 ", &long].concat(), &n.dbs, &mut c); }
     let new0 = peek(&n.dbs, "d", "k0").unwrap(); let new1 = peek(&n.dbs, "d", "key1");
     // snapshot 2 is interrupted: every mutating file-system operation with index >= CRASH_AT is lost
@@ -29,7 +29,10 @@ pub fn c11_crash() {
     process_request(if reclaim { "snapshot true" } else { "snapshot false" }, &n.dbs, &mut c);
     let k = vsym::any_u64("crash-after-ops"); vsym::assume(k < 10_000);
     unsafe { vstd::vfs::CRASH_AT = vstd::vfs::OPS + k; }
+    // the order in which the snapshot visits the keys is unspecified (HashMap): solver-chosen rotation
+    unsafe { vstd::vmap::ITER_ROT = vsym::choice("iteration-rotation", vsym::param("rot", 6)); }
     snapshot_all_pendding_dbs(&n.dbs);
+    unsafe { vstd::vmap::ITER_ROT = 0; }
     let completed = unsafe { vstd::vfs::OPS <= vstd::vfs::CRASH_AT };
     vsym::cover("crash.before-end", !completed); vsym::cover("crash.none", completed);
     unsafe { vstd::vfs::CRASH_AT = u64::MAX; }
@@ -49,7 +52,11 @@ pub fn c11_crash() {
                 vsym::check("crash.key1-value-was-stored", g.value == old1.value || (match &new1 { Some(nv) => g.value == nv.value, None => false }));
                 vsym::check("crash.key1-old-or-new", (g.value == old1.value && g.version == old1.version) || (match &new1 { Some(nv) => g.value == nv.value && g.version == nv.version, None => false }));
             }
-            None => vsym::check("crash.persisted-key-present", kind == 2),     // gone only if it was being removed
+            None => vsym::check("crash.persisted-key-present", kind == 2 || kind == 5),     // gone only if it was being removed
+        }
+        // a key the interrupted snapshot was adding: absent (before) or complete (after), never a value that was never stored
+        if kind == 1 || kind == 3 || kind == 5 {
+            match peek(&n2.dbs, "d", "k2") { Some(g) => vsym::check("crash.new-key-absent-or-as-written", g.value == "nw"), None => {} }
         }
         match peek(&n2.dbs, "d", "$$token") { Some(t) => vsym::check("crash.neighbour-token-intact", t.value == "tok"), None => vsym::check("crash.neighbour-token-intact", false) }
         if completed {
